@@ -57,6 +57,33 @@ def per_pipeline(rec):
     return bad
 
 
+def sweep_model(drv, rec):
+    """the completion bookkeeping of the main loop, run by the Lean model (`Sweep.runSweep`) on this run's history, against what the simulator recorded:
+    every pipeline finished exactly once, with the finish tick and latency the model derives; the others not at all"""
+    base, nops = {}, 0
+    for k, p in enumerate(rec.pipelines):
+        n = len(p.runtime_status().operator_states)
+        base[k] = list(range(nops, nops + n))
+        nops += n
+    idx = {id(p): k for k, p in enumerate(rec.pipelines)}
+    n = len(rec.arrivals)
+    hist = []
+    for t in range(n):
+        ex = rec.exec[t]
+        hist.append([[[idx[id(p)], base[idx[id(p)]]] for p in rec.arrivals[t]], int(bool(ex["results"])), [o for k in ex["complete"] for o in base[k]]])
+    m = drv.send(f"sweep {nops} " + json.dumps(hist, separators=(",", ":")))
+    want = {k: (t, lat) for k, t, lat in m["finished"]}
+    bad = []
+    if len(want) != len(m["finished"]):
+        bad.append("model: a pipeline finished twice")
+    for k, p in enumerate(rec.pipelines):
+        rt = p.runtime_status()
+        got = None if rt.finish_tick is None else (rt.finish_tick, rt.get_latency_ticks())
+        if got != want.get(k):
+            bad.append(f"pipeline {p.pipeline_id}: simulator recorded (finish tick, latency) = {got}, the bookkeeping model gives {want.get(k)}")
+    return bad
+
+
 def one_run(ctx, drv, rng):
     algo = rng.choice(["naive", "priority", "priority-pool", "overbook", "template"])
     tps = rng.choice([1, 2, 10, 100])
@@ -85,7 +112,7 @@ def one_run(ctx, drv, rng):
     m = drv.send("recount " + json.dumps(ev, separators=(",", ":")))
     if m["loop"] != m["recount"]:
         raise RuntimeError("model: loop != recount")
-    bad = compare(stats, m["recount"], params) + per_pipeline(rec)
+    bad = compare(stats, m["recount"], params) + per_pipeline(rec) + sweep_model(drv, rec)
     case = {"params": params, "algo": algo}
     ctx.sit(algo + "_runs")
     if stats.pipelines_created == 0:
@@ -140,7 +167,7 @@ def preempt_run(ctx, drv, rng):
     ctx.coverage["evaluations"] += 1
     ev = layer_m.history(rec)
     m = drv.send("recount " + json.dumps(ev, separators=(",", ":")))
-    bad = compare(stats, m["recount"], params) + per_pipeline(rec)
+    bad = compare(stats, m["recount"], params) + per_pipeline(rec) + sweep_model(drv, rec)
     ctx.sit("preemption_runs")
     ctx.sit("suspensions_in_preemption_runs", stats.suspensions)
     if bad:
